@@ -46,6 +46,10 @@ def run_mutant(m, scale, workers):
             if m["post"][0] not in src:
                 return {"id": m["id"], "prop": m["prop"], "status": "STALE", "detail": "post pattern not found", "wall": 0}
             src = src.replace(m["post"][0], m["post"][1], 1)
+        for old, new in m.get("extra", []):
+            if old not in src:
+                return {"id": m["id"], "prop": m["prop"], "status": "STALE", "detail": "extra pattern not found", "wall": 0}
+            src = src.replace(old, new, 1)
         open(path, "w").write(src)
         env = dict(os.environ)
         env.update({"VERIF_REPO": tmp, "VERIF_SCALE": str(scale), "VERIF_WORKERS": str(workers),
